@@ -388,6 +388,15 @@ func TestC06_Workloads(t *testing.T) {
 			}).Draw(rt, "aliasPair")...)
 			w.Texts = append(w.Texts, `($m := $millis(); $s := $sum([1..2000]); ($millis() = $m and $toMillis($now()) = $m) ? tag & $s : "the clock moved within one evaluation")`)
 		}
+		// goroutines that share one input object always include evaluations that
+		// would be visible to each other if any built-in worked on the caller's
+		// array itself: sorting / reversing / extending it next to reading its order
+		if w.ShareInput {
+			w.Texts = append(w.Texts,
+				`$string($sort(arr)) & $string($sort(items.k)) & tag`,
+				`$string(arr[0]) & "," & $string(arr[1]) & "," & $string(arr[-1]) & tag`,
+				`$string($reverse(arr)) & $string($append(arr, [n])) & $string($distinct(arr)) & tag`)
+		}
 		for i := 0; i < 3; i++ {
 			w.Extra = append(w.Extra, val.JSON(docs.Draw(rt, "extra")))
 		}
